@@ -15,6 +15,7 @@ def tasks(tier):
         vi('to_bits', dict(l=l, lbits=max(1, l // 2)), 'mpyc.runtime.Runtime.to_bits', f'l={l}, lowest {max(1, l // 2)} bits')
         vi('from_bits', dict(l=l), 'mpyc.runtime.Runtime.from_bits', f'l={l}')
         vi('trailing_zeros', dict(l=l), 'mpyc.runtime.Runtime.trailing_zeros', f'l={l}')
+        vi('trailing_zeros', dict(l=l, lbits=max(1, l // 2)), 'mpyc.runtime.Runtime.trailing_zeros', f'l={l}, explicit l={max(1, l // 2)} low bits of a full-range a')
         if l <= 5: vi('gcp2', dict(l=l), 'mpyc.runtime.Runtime.gcp2', f'l={l}')        # l = 6 exceeds the task limit (path explosion)
     vi('to_bits', dict(l=6, fxp=2), 'mpyc.runtime.Runtime.to_bits(fixed point)', '(l,f)=(6,2)')
     vi('to_bits', dict(l=6, fxp=2, integral=True), 'mpyc.runtime.Runtime.to_bits(fixed point, integral)', '(l,f)=(6,2)')
